@@ -54,6 +54,53 @@ func bodyForCompressedSize(mid string, target int) string {
 	panic(fmt.Sprintf("no body found for compressed size %d", target))
 }
 
+var midCache sync.Map
+
+// midForChecksum finds a MID (same prefix) for which the single-proposal block checksum of the
+// default message is want.
+func midForChecksum(base string, want int) string {
+	from := VariantFrom[base[:1]]
+	key := fmt.Sprintf("%s/%s/%d", base, from, want)
+	if v, ok := midCache.Load(key); ok {
+		return v.(string)
+	}
+	const digits = "0123456789ABCDEFGHIJKLMNOPQRSTUVWXYZabcdefghijklmnopqrstuvwxyz"
+	n := len(digits)
+	lineSum := func(mid string, us, cs int) int {
+		sum := 0
+		for _, c := range []byte(fmt.Sprintf("FC EM %s %d %d 0\r", mid, us, cs)) {
+			sum += int(c)
+		}
+		return (-sum) & 0xff
+	}
+	sizes := func(mid string) (int, int, bool) {
+		p, err := sess.MsgSpec{MID: mid}.Build(from).Proposal(fbb.Wl2kProposal)
+		if err != nil {
+			return 0, 0, false
+		}
+		return p.Size(), p.CompressedSize(), true
+	}
+	us, cs, _ := sizes(base)
+	for i := 0; i < n*n*n*n; i++ {
+		mid := base[:8] + string([]byte{digits[i/(n*n*n)%n], digits[i/(n*n)%n], digits[i/n%n], digits[i%n]})
+		if lineSum(mid, us, cs) != want {
+			continue // cheap pre-filter with the sizes of the previous candidate
+		}
+		u2, c2, ok := sizes(mid)
+		if ok && lineSum(mid, u2, c2) == want {
+			midCache.Store(key, mid)
+			return mid
+		}
+		if ok {
+			us, cs = u2, c2
+		}
+	}
+	panic("no MID found for the wanted block checksum")
+}
+
+// VariantFrom maps the side letter of a MID to the callsign that sends it (set by each check).
+var VariantFrom = map[string]string{"A": "N0AAA", "B": "N0BBB"}
+
 // msgVariant returns the spec of variant v for the given MID.
 func msgVariant(v int, mid string) sess.MsgSpec {
 	s := sess.MsgSpec{MID: mid}
@@ -106,13 +153,23 @@ func msgVariant(v int, mid string) sess.MsgSpec {
 		s.Body = lcgText(9000, 3) // several KB, > 4096-byte bufio buffers
 	case 23:
 		s.Subject = strings.Repeat("S", 100) // long ASCII title (> 80)
+	case 24: // empty attachment followed by one non-empty
+		s.Files = []sess.FileSpec{{Name: "empty.bin", Data: []byte{}}, {Name: "b.txt", Data: []byte("second attachment, should arrive intact")}}
+	case 25: // empty attachment followed by two
+		s.Files = []sess.FileSpec{{Name: "empty.bin", Data: []byte{}}, {Name: "b.txt", Data: []byte("second attachment, should arrive intact")}, {Name: "c.txt", Data: []byte("third")}}
+	case 26: // a proposal line whose byte sum is 0 modulo 256 (block checksum 00)
+		s.MID = midForChecksum(mid, 0)
+	case 27: // block checksum FF
+		s.MID = midForChecksum(mid, 0xff)
+	case 28: // block checksum 80
+		s.MID = midForChecksum(mid, 0x80)
 	default:
 		panic("no such variant")
 	}
 	return s
 }
 
-const nMsgVariants = 24
+const nMsgVariants = 29
 
 func midFor(side string, i int) string { return fmt.Sprintf("%sMSG%07d%c", side, i, 'A'+byte(i%26)) } // 12 alphanumerics
 
